@@ -159,6 +159,10 @@ Seeds ==
             NewArgs("bag", NUCLEOTIDS, 0, <<Row(nA, <<65, 84, 71, 45, 67>>), Row(nB, <<71>>)>>)>>,
           <<NewArgs("align", AMINOACIDS, 0, <<Row(nA, <<77, 75, 45>>), Row(nB, <<77, 81, 88>>)>>),
             NewArgs("align", NUCLEOTIDS, 0, <<Row(nC, <<65, 84, 71>>)>>)>>,
+          \* alignments whose declared alphabet is not what detection would say (protein / undetermined, written with letters that
+          \* are nucleotide codes too): a computation that re-detects the alphabet of its input changes that input
+          <<NewArgs("align", AMINOACIDS, 0, <<Row(nA, <<65, 67, 71, 84, 78>>), Row(nB, <<65, 67, 71, 65, 78>>), Row(nC, <<84, 84, 71, 65, 67>>)>>),
+            NewArgs("align", 3, 0, <<Row(nA, <<65, 67, 71, 84>>), Row(nB, <<65, 71, 71, 84>>)>>)>>,
           \* proteins with gaps, '.', '*' in rows that differ elsewhere (distance computations compare them pairwise);
           \* reads whose best ORF is on the minus strand (CTATTTCAT) followed by one with a longer ORF on the plus strand
           <<NewArgs("align", AMINOACIDS, 0, <<Row(nA, <<65, 82, 78, 68, 45, 81, 69, 42>>), Row(nB, <<65, 82, 75, 68, 67, 81, 46, 71>>), Row(nC, <<65, 82, 78, 69, 67, 81, 69, 71>>)>>),
